@@ -123,6 +123,19 @@ Proof.
 Qed.
 Print Assumptions C05_fork_switch_safe.
 
+(* Weight across a fork switch, under the guard that excludes the defect: a call that runs to the end
+   (returns true, recursion budget not exhausted) on a fork that still has a block to add ends on a
+   chain at least as heavy as the old head's. Without "runs to the end" this is false:
+   C05_fork_switch_weight_refuted. *)
+Theorem C05_fork_switch_weight_done : forall U gen, tree_ok U -> forall fuel v s fk l,
+  vol_ok U gen v -> fork_ok U fk -> chain_ok U gen l -> rep s l ->
+  f_blocks fk (height (f_latest fk)) = Some (f_latest fk) ->
+  (if f_current fk =? f_header fk then f_current fk + 1 else f_current fk) <= height (f_latest fk) ->
+  forall ws fk' v2, fork_trigger fuel v s fk = (ws, true, fk', v2, false) ->
+  exists l', chain_ok U gen l' /\ rep (apply ws s) l' /\ qhd l <= qhd l'.
+Proof. intros U gen [H1 H2]. exact (fork_trigger_weight U gen H1 H2). Qed.
+Print Assumptions C05_fork_switch_weight_done.
+
 (* the fork object itself: created on a chain block, fed blocks of U *)
 Theorem C05_fork_wellformed : forall (U : block -> Prop) a, U a -> fork_ok U (fork_new a) /\
   forall fk b, fork_ok U fk -> U b -> fork_ok U (fst (fork_add fk b)).
